@@ -16,13 +16,15 @@ type Cfg struct {
 	FileSize int64 `json:"file_size"`
 	Sync     byte  `json:"sync"` // 0 No 1 Always 2 Threshold
 	BPS      uint  `json:"bps"`
+	Pool     byte  `json:"pool,omitempty"` // order in which sync.Pool hands records back: 0 newest first, 1 oldest first
 }
 
 func (c Cfg) String() string {
 	idx := map[int8]string{1: "btree", 2: "skiplist", 3: "hashmap"}[c.Index]
 	io := map[byte]string{0: "std", 1: "mmap"}[c.IO]
 	sy := map[byte]string{0: "nosync", 1: "always", 2: fmt.Sprintf("thr%d", c.BPS)}[c.Sync]
-	return fmt.Sprintf("%s/sh%d/%s/fs%d/%s", idx, c.Shards, io, c.FileSize, sy)
+	pool := map[byte]string{0: "", 1: "/pool-fifo"}[c.Pool]
+	return fmt.Sprintf("%s/sh%d/%s/fs%d/%s%s", idx, c.Shards, io, c.FileSize, sy, pool)
 }
 
 var defaultCfg = Cfg{Index: 3, Shards: 16, IO: 0, FileSize: 130, Sync: 0, BPS: 64}
